@@ -1,6 +1,24 @@
----- MODULE MCSemaphore ----
+---------------------------- MODULE MCSemaphore ----------------------------
+(* Model-checking / behaviour-export wrapper of Semaphore.tla (see MCMutex.tla). *)
 EXTENDS Semaphore
-Q1 == [a \in {"a1","a2","a3"} |-> IF a = "a1" THEN "wait_timeout" ELSE IF a = "a2" THEN "wait" ELSE "post"]
-Q2 == [a \in {"a1","a2","a3","a4"} |-> IF a = "a1" THEN "wait_timeout" ELSE IF a = "a2" THEN "wait_timeout" ELSE "post"]
-Q3 == [a \in {"a1","a2","a3","a4"} |-> IF a = "a1" THEN "wait_timeout" ELSE IF a = "a2" THEN "try_wait" ELSE IF a = "a3" THEN "wait" ELSE "post"]
-====
+VARIABLE last
+
+\* a1 times out or gets the permit, a2 waits for ever or gets it, a3 posts once, a4 posts once
+P4 == [a \in Actors |-> CASE a = "a1" -> <<"twait">> [] a = "a2" -> <<"twait">> [] a = "a3" -> <<"post">> [] OTHER -> <<"post", "try">>]
+\* cancel of a waiter racing with post; try_wait racing with wait
+P3c == [a \in Actors |-> CASE a = "a1" -> <<"wait">> [] a = "a2" -> <<"wait", "post">> [] OTHER -> <<"post", "try">>]
+\* threads and coroutines, initial value 1
+P3m == [a \in Actors |-> CASE a = "a1" -> <<"wait", "post">> [] a = "a2" -> <<"wait", "post">> [] OTHER -> <<"try", "wait", "post">>]
+P3t == [a \in Actors |-> CASE a = "a1" -> <<"twait">> [] a = "a2" -> <<"twait", "try">> [] OTHER -> <<"post">>]
+D == [a \in Actors |-> CASE a = "a1" -> 1 [] a = "a2" -> 2 [] OTHER -> 3]
+
+MCInit == Init /\ last = <<"", "", -1>>
+MCNext ==
+  \/ \E a \in Actors : Step(a) /\ last' = <<a, pc[a], Obs(a)>>
+  \/ \E a \in Actors : Internal(a) /\ last' = <<"~", a, -1>>
+  \/ \E a \in Actors : Cancel(a) /\ last' = <<"!cancel", a, -1>>
+  \/ Tick /\ last' = <<"!tick", "", -1>>
+  \/ Terminal /\ UNCHANGED last
+MCSpec == MCInit /\ [][MCNext]_<<vars, last>>
+View == vars
+=============================================================================
